@@ -109,7 +109,8 @@ pub enum Op {
     Unmute,
 }
 
-pub const BOARDS: [(u8, i8); 4] = [(14, 0), (21, 2), (30, -3), (10, 5)];
+/// (radio maximum in dBm, antenna gain in dBi); negative gain = feed-line loss, once with head-room and once without
+pub const BOARDS: [(u8, i8); 5] = [(14, 0), (21, 2), (30, -3), (10, 5), (12, -3)];
 
 // ------------------------------------------------------------------ devices
 type NbDev<const P: u8, const G: i8> = nb_device::Device<NbRadio<P, G>, SRng, 256, 4>;
@@ -705,10 +706,11 @@ pub type GenFn<'g> = dyn FnMut(&View) -> Option<Op> + 'g;
 /// are exhausted, `generator` (if any) supplies further ops until it returns None.
 pub fn run_history(out: &mut TraceWriter, ops: &[Op], seed: u64, generator: Option<&mut GenFn<'_>>) -> Vec<Op> {
     let Op::Reset { board, .. } = &ops[0] else { panic!("history must start with Reset") };
-    match BOARDS[*board % 4] {
+    match BOARDS[*board % 5] {
         (14, 0) => run_typed::<14, 0>(out, ops, seed, generator),
         (21, 2) => run_typed::<21, 2>(out, ops, seed, generator),
         (30, -3) => run_typed::<30, -3>(out, ops, seed, generator),
+        (12, -3) => run_typed::<12, -3>(out, ops, seed, generator),
         _ => run_typed::<10, 5>(out, ops, seed, generator),
     }
 }
@@ -1602,7 +1604,7 @@ fn reset_op(rng: &mut StdRng, region: &str, front: &str, classc: bool) -> Op {
         region: region.into(),
         front: front.into(),
         classc,
-        board: rng.gen_range(0..4),
+        board: rng.gen_range(0..5),
         bias_sb: if fixed && rng.gen_bool(0.5) { rng.gen_range(1..=8) } else { 0 },
         bias_retries: [1usize, 1, 2, 3][rng.gen_range(0..4)],
         lead: [0u32, 10, 50][rng.gen_range(0..3)],
